@@ -19,6 +19,14 @@ register(
         "GtModel.C01.script_accounts_docs",
         "GtModel.C01.keep_reproduces",
         "GtModel.C01.keep_root",
+        # sentence 2 for whole documents: the two projections of the script rebuild the two documents
+        "GtModel.C01.project_of_accounts",
+        "GtModel.C01.project_from",
+        "GtModel.C01.project_to",
+        "GtModel.C01.project_from_docs",
+        "GtModel.C01.project_to_docs",
+        "GtModel.C01.project_from_mapFree",
+        "GtModel.C01.project_to_mapFree",
         # XML / HTML elements (model GtModel.Xml.xmlEdits, stream scriptxml)
         "GtModel.C01.xml_elem_accounts",
         "GtModel.C01.xml_elem_children_length",
@@ -54,5 +62,13 @@ register(
         "the assignment solver (scipy) is an oracle: its answer is sanitised to a partial injection, theorems hold "
         "for every answer",
     ],
-    partial="",
+    partial="sentence 2 ('discarding what is marked inserted reproduces the first document, …removed… the second') is proved "
+    "for whole JSON-family documents on the model (project_from / project_to: the projections rebuild every level from "
+    "the script's kinds, order and indices) with these limits: (a) mappings are reproduced up to the ORDER of their "
+    "pairs (Tree.Sim; equality for documents without mappings, project_*_mapFree); (b) the model's scripts carry "
+    "indices and costs, no values: a Match / Replace / Remove / Insert without sub-edits contributes the node its "
+    "recorded index names in the parent's from- resp. to-node, looked up in the two documents; (c) the marks on the "
+    "real EditedTreeNodes (removed / inserted / edit.to_node) are tied to the model's script by the `script` stream's "
+    "monitor, not by a theorem; (d) keep_reproduces / xml_keep_reproduces are PER-NODE re-readings of LocalAcc (one "
+    "compound edit, no descent): XML / HTML elements and general multisets have no whole-document projection theorem",
 )
